@@ -1,0 +1,22 @@
+//go:build verif
+
+// Contracts for the deductive verifier in /verif (comment-only; compiled only with -tags verif).
+package types
+
+//@ define H2I(b) = uf("bytes_to_int", ufbytes("sha256", b))
+//@ define P20 = 100000000000000000000
+// seed of the documented formula: hash of (timestamp + H(blockHash)/timestamp + H(initiator)/timestamp [+ H(oracleSeed)/timestamp])
+//@ define seedSum(p) = p.BlockTimestamp + H2I(p.BlockHash) div p.BlockTimestamp + H2I(p.TxInitiator) div p.BlockTimestamp
+//@      + ite(p.Oracle, H2I(p.OracleSeed) div p.BlockTimestamp, 0)
+//@ define randOf(p) = real(H2I(ufbytes("int_to_bytes", seedSum(p))) mod P20) / real(P20)
+
+// The generated number (C18): in [0,1), with denominator 10^20, and exactly the documented function of
+// the block hash, the block time, the requester and (if used) the oracle seed.
+//@ func PRNG.GetRand
+//@   property C18
+//@   returns r
+//@   requires p.BlockTimestamp > 0
+//@   ensures range:   0 <= r && r < 1
+//@   ensures formula: r == randOf(p)
+//@   nopanic
+//@ end
